@@ -766,6 +766,12 @@ def replay(tt_mod, hist, on_violation, fortran=False, dedupe=False):
             continue
         touched = ev.get('touched')
         snap = None
+        if dedupe and (touched is not None or any(m[0] == ev.get('a') for m in ev.get('mod', []))) and \
+                len({id(c) for c in objs[ev['a'] - 1].cores}) < len(objs[ev['a'] - 1].cores) and hist[ev['a'] - 1]['op'] == 'New' \
+                if 'a' in ev and ev['a'] - 1 < len(hist) else False:
+            # in-place call on a train the *caller* built from one array object at several positions: outside the domain (a
+            # train owns its core arrays).  Copies and results made by the library own theirs: calls on them are replayed.
+            return calls
         if touched is not None:
             snap = [c.copy() for c in objs[ev['a'] - 1].cores]
         try:
